@@ -169,7 +169,7 @@ def run(ctx: lib.Ctx) -> None:
     def out_val(idx, payload, ep=b''):
         return f'(Ok ({cnat(idx)}, {chex(payload)}, {chex(ep) if ep else "nil"}))'
 
-    typed_share = ctx.n(0.4, 1.0)
+    typed_share = ctx.n(0.3, 1.0)
 
     def typed(op, k, fl, a, e, expect, what):
         tmeta_all.append(what)
@@ -202,10 +202,23 @@ def run(ctx: lib.Ctx) -> None:
             return out_val(ADDR.index(tp), h)
         return out_val(ADDR.index(tp), h, ep.encode() if pct else b'default')
 
+    ctx.assumptions.append('C10: the typed-level comparison maps Base58Check strings to (kind, payload) with the base58 package and '
+                           "/repo's table (harness); the text-level sample and the C10_text_*/C10_observed_* theorems go through Codec/Base58.v")
+    ctx.assumptions.append('C10: address strings with an empty entrypoint name (KT1...%) are excluded (normalisation, FIXLOG #41 not fixed)')
+    # corpus/C10/*.json: {"digests": {"tz2": ["00…"], …}} — digests run first for the named kinds
+    import glob
+    import json
+    import os
+    corpus = {}
+    for path in sorted(glob.glob(os.path.join(lib.VERIF, 'corpus', 'C10', '*.json'))):
+        for k, lst in json.load(open(path)).get('digests', {}).items():
+            corpus.setdefault(k, []).extend(bytes.fromhex(x) for x in lst)
+            ctx.corpus_cases += len(lst)
+
     # ---------------------------------------------------------------- addresses and key hashes
     n_dig = ctx.n(7, 80)
     for ki, kind in enumerate(ADDR):
-        for h in digests(rng, 20, n_dig):
+        for h in corpus.get(kind, []) + digests(rng, 20, n_dig):
             text = b58(kind, h)
             for tz_only in (False, True):
                 ok, d = lib.call(F.forge_address, text, tz_only)
